@@ -21,16 +21,23 @@ FE_PATHS = [".status.a", "status.b", ".status.b", ".spec.replicas", ".status.rep
 # a small fixed set of CEL rules: constants, field comparisons (may fail at run time), non-boolean, not compiling
 RULES = ["true", "false", "self.metadata.generation == 2", "self.status.a == self.status.b",
          "has(self.status) && has(self.status.conditions)", "self.status.replicas > 0",
-         "self.kind == 'Deployment'", "self.status.a", "1 + 1", "'str'", "self.status.a +", "unknownFn(self)"]
-RULE_CLASS = ["ok"] * 7 + ["not-bool"] * 3 + ["compile"] * 2   # what NewCELProbe has to say about each rule
-RULE_W = [10, 10, 8, 8, 8, 8, 6, 1.2, 0.6, 0.6, 0.6, 0.4]
+         "self.kind == 'Deployment'", "self.status.a", "1 + 1", "'str'", "self.status.a +", "unknownFn(self)",
+         # boolean rules that cannot be evaluated on objects without .status / the key / with a value of the wrong type
+         "self.status.conditions.exists(c, c.type == 'Available' && c.status == 'True')",
+         "self.spec.replicas == self.status.replicas", "self.status.nested.x == 1", "self.status.observedGeneration >= 1",
+         # statically typed int / string / int / list: not boolean, to be refused by Parse
+         "size(self.status.conditions)", '"Available"', "self.status.a == 1 ? 1 : 0", "self.status.conditions.map(c, c.type)"]
+# what NewCELProbe has to say about each rule
+RULE_CLASS = ["ok"] * 7 + ["not-bool"] * 3 + ["compile"] * 2 + ["ok"] * 4 + ["not-bool"] * 4
+RULE_W = [10, 10, 8, 8, 8, 8, 6, 1.2, 0.6, 0.6, 0.6, 0.4, 7, 6, 6, 6, 0.6, 0.6, 0.6, 0.6]
+PANIC = "C17 probing panics"
 REASONS = {"status-outdated": "RStatusOutdated", "cond-missing": "RCondMissing", "cond-malformed": "RCondMalformed",
            "cond-outdated": "RCondOutdated", "cond-wrong-status": "RCondWrongStatus",
            "cond-not-reported": "RCondNotReported", "field-missing-a": "RFieldMissingA",
            "field-missing-b": "RFieldMissingB", "field-not-equal": "RFieldNotEqual", "cel-false": "RCelFalse",
            "cel-error": "RCelError", "unknown": "RUnknown"}
 CEL_CLASS = {"ok": "CelOk", "not-bool": "CelNotBool", "compile": "CelCompileErr"}
-CEL_OUT = {"true": "CelTrue", "false": "CelFalse", "error": "CelErr", "none": "CelErr"}
+CEL_OUT = {"true": "CelTrue", "false": "CelFalse", "error": "CelErr", "none": "CelErr", "non-bool": "CelErr"}
 PERR = {"cel-not-bool": "ECelNotBool", "cel-compile": "ECelCompile", "selector": "ESelector"}
 LS_OPS = {"In": "LIn", "NotIn": "LNotIn", "Exists": "LExists", "DoesNotExist": "LDoesNotExist"}
 CLAUSES = ["C17 Parse accepts a non-boolean CEL rule or refuses a valid probe list",
@@ -371,6 +378,21 @@ def fixed():
         {"probes": [osp([cond()])], "object": dep(gen="2", status={"observedGeneration": 1, "conditions": [avail(0)]})},
     ] + [{"probes": [osp([cond()], kind=None if k % 5 == 0 else ("apps", "Deployment"))],
           "object": dep(gen=4, status={"conditions": cs})} for k, cs in enumerate(separated_duplicates())] + [
+        # boolean rules that cannot be evaluated on the object: no .status, missing key, value of the wrong type
+        {"probes": [osp([cel(5)])], "object": dep()},
+        {"probes": [osp([cel(5)])], "object": dep(status={"observedGeneration": 2})},
+        {"probes": [osp([cel(5)])], "object": dep(status={"observedGeneration": 2, "replicas": "2"})},
+        {"probes": [osp([cel(5)])], "object": dep(status="Running")},
+        {"probes": [osp([cond(), cel(12)])], "object": dep(status={"observedGeneration": 2, "conditions": "x"})},
+        {"probes": [osp([cel(12), cond()]), osp([cel(13)], kind=None)], "object": dep(status={"conditions": [avail()]})},
+        {"probes": [osp([cel(14)], selector={"matchLabels": {"app": "x"}})], "object": dep(labels={"app": "x"}, status={"nested": "leaf"})},
+        {"probes": [osp([cel(15), cel(0)])], "object": dep(status={"observedGeneration": "2"})},
+        {"probes": [osp([cel(5)], kind=("", "ConfigMap"))], "object": dep()},
+        # statically non-boolean rules: Parse has to refuse them
+        {"probes": [osp([cel(16)])], "object": dep(status={"conditions": [avail()]})},
+        {"probes": [osp([cond()]), osp([cel(17)], kind=("", "ConfigMap"))], "object": dep(status={"conditions": [avail()]})},
+        {"probes": [osp([cel(0), cel(18)])], "object": dep(status={"a": 1})},
+        {"probes": [osp([cel(19)], kind=None)], "object": dep(status={"conditions": [avail()]})},
         # a failing CEL probe whose message is empty / blank, alone, in a list, next to others, and duplicates
         {"probes": [osp([cel(1, "")])], "object": dep()},
         {"probes": [osp([cel(1, "")], kind=None)], "object": dep()},
@@ -545,10 +567,14 @@ def stage_probe(run, tier, seed, cov, rp):
     terms, idx = [], []
     dist = collections.Counter()
     for i, (sc, o) in enumerate(zip(scs, outs)):
+        if report_panic(run, "probe", sc, o):
+            continue
         if "obs" not in o:
             run.violation("corr:C17/probe harness error", {"scenario": sc, "out": o}, False)
             continue
         obs = o["obs"]
+        if obs.get("panics"):
+            run.violation(PANIC, {"stage": "probe", "scenario": sc, "panic": obs["panics"][0], "impl": obs}, True)
         pe = obs.get("parseErr")
         bad = None
         if pe and (pe["class"] not in PERR or pe["index"] < 0):
@@ -557,10 +583,9 @@ def stage_probe(run, tier, seed, cov, rp):
             bad = "unclassified CEL oracle result"
         elif obs["gk"] != expected_gk(sc["object"]):
             bad = "object GroupKind differs from the documented derivation"
-        for c in obs["cel"]:
-            if c["class"] != RULE_CLASS[RULES.index(c["rule"])]:
-                run.violation(CLAUSES[0], {"scenario": sc, "impl": obs, "rule": c["rule"], "class": c["class"],
-                                           "expected": RULE_CLASS[RULES.index(c["rule"])]}, True)
+        op = oracle_problem(obs["cel"])
+        if op:
+            run.violation(CLAUSES[0], dict(op, scenario=sc, impl=obs), True)
         if bad:
             run.violation("corr:C17/" + bad, {"correspondence": bad, "scenario": sc, "impl": obs}, False)
             continue
@@ -700,6 +725,11 @@ def gen_phase(seed, tier, cov):
                     "paused": k % 3 == 2})
     for paused in (False, True):
         out += [
+            # the only probe is a rule that cannot be evaluated (no .status / missing key / wrong type)
+            {"probes": [osp([cel(5)], kind=WK)], "objects": [widget(0)], "paused": paused},
+            {"probes": [osp([cel(5)], kind=WK)], "objects": [widget(0, status={"observedGeneration": 1})], "paused": paused},
+            {"probes": [osp([cel(12)], kind=WK)], "objects": [widget(0, status={"conditions": "x"}), ok_w2], "paused": paused},
+            {"probes": [osp([cond(), cel(14)], kind=WK)], "objects": [ok_w], "paused": paused},
             # the only failing probe has an empty / blank message
             {"probes": [osp([cel(1, "")], kind=WK)], "objects": [ok_w], "paused": paused},
             {"probes": [osp([cel(1, " ")], kind=WK)], "objects": [ok_w], "paused": paused},
@@ -752,13 +782,30 @@ def c_pass(probes, po):
     return "(%s : pass_obs)" % cP(cL([c_osp(q) for q in probes]), cL(items), cN(po["nfailed"]), cB(po["zero"]))
 
 
+def oracle_problem(cels):
+    """Parse-time clause on the oracle itself: NewCELProbe has to refuse every rule of the corpus whose checked output
+    type is not bool (and only those and the ones that do not compile); a compiled program never returns a non-boolean."""
+    for c in cels:
+        if c["class"] != RULE_CLASS[RULES.index(c["rule"])] or c["outcome"] == "non-bool":
+            return {"rule": c["rule"], "class": c["class"], "outcome": c["outcome"], "expected": RULE_CLASS[RULES.index(c["rule"])]}
+    return None
+
+
 def pass_problem(po):
     if po.get("res") != "ok":
         return "pass ended with an error: %s" % po.get("err")
     for it in po["items"]:
-        if any(c["outcome"] == "unknown" or c["class"] != RULE_CLASS[RULES.index(c["rule"])] for c in it["cel"]):
-            return "unclassified CEL oracle result"
+        if oracle_problem(it["cel"]):
+            return "CEL oracle: rule class differs from the corpus"
     return None
+
+
+def report_panic(run, stage, sc, o):
+    """a panic inside Parse / Probe / ReconcilePhase (recovered by the harness) is a failure with a failing input"""
+    if "panic" in o:
+        run.violation(PANIC, {"stage": stage, "scenario": sc, "panic": o["panic"], "stack": o.get("stack", "")[-3000:]}, True)
+        return True
+    return False
 
 
 def stage_phase(run, tier, seed, cov, rp):
@@ -768,10 +815,16 @@ def stage_phase(run, tier, seed, cov, rp):
     terms, idx = [], []
     dist = collections.Counter()
     for i, (sc, o) in enumerate(zip(scs, outs)):
+        if report_panic(run, "phase reconciler", sc, o):
+            continue
         if "obs" not in o:
             run.violation("corr:C17/probephase harness error", {"scenario": sc, "out": o}, False)
             continue
         po = o["obs"]
+        for it in po.get("items", []):
+            op = oracle_problem(it["cel"])
+            if op:
+                run.violation(CLAUSES[0], dict(op, scenario=sc), True)
         if po.get("parseErr"):
             run.violation("corr:C17/probephase: Parse refuses a list the generator holds for valid",
                           {"correspondence": "parseable()", "scenario": sc, "impl": po}, False)
@@ -826,6 +879,9 @@ def probe_stage(run, pid, tier, seed, identity):
     outs = vlib.run_harness("probephase", scs, par=8)
     terms, idx = [], []
     for i, (sc, o) in enumerate(zip(scs, outs)):
+        if "panic" in o:
+            run.violation(identity, {"scenario": sc, "panic": o["panic"], "stage": "probephase (checks/C17.py)"}, True)
+            continue
         if "obs" not in o or o["obs"].get("parseErr") or pass_problem(o["obs"]):
             continue
         terms.append(c_pass(sc["probes"], o["obs"]))
@@ -901,6 +957,8 @@ def stage_history(run, tier, seed, cov, rp):
     terms, idx = [], []
     dist = collections.Counter()
     for i, (sc, o) in enumerate(zip(scs, outs)):
+        if report_panic(run, "history", sc, o):
+            continue
         if "obs" not in o or o["obs"].get("err"):
             run.violation("corr:C17/probehistory harness error", {"scenario": sc, "out": o}, False)
             continue
